@@ -21,6 +21,7 @@ func (m *Mutex) Unlock() {
 	vsched.NoYieldExit()
 	m.mu.Unlock()
 	vsched.Result("")
+	vsched.AfterUnlock()
 }
 
 // RWMutex: acquisition (read or write) is the scheduling point; the critical section runs
@@ -37,6 +38,7 @@ func (m *RWMutex) Unlock() {
 	vsched.NoYieldExit()
 	m.mu.Unlock()
 	vsched.Result("")
+	vsched.AfterUnlock()
 }
 
 func (m *RWMutex) RLock() {
@@ -49,6 +51,7 @@ func (m *RWMutex) RUnlock() {
 	vsched.NoYieldExit()
 	m.mu.RUnlock()
 	vsched.Result("")
+	vsched.AfterUnlock()
 }
 type WaitGroup = sync.WaitGroup
 type Once = sync.Once
